@@ -72,7 +72,31 @@ STRENGTHENED = """Checks strengthened because a seeded change was missed (genera
 * **C09** `C09-receiver-loop-stop-check-before-trigger-clear` - was found by the closerace task at once, but as a harness error
   (the scripted peer's Select.rsp hit a connection that the wedged endpoint had reset): a new connection that the endpoint drops
   is now the failure `reselect-failed`.
-@@AGENTS@@
+* **C05** `C05-logging-decode-except-narrowed`, `C05-dispatcher-thread-per-connect` - data-message bodies are generated (conforming,
+  over-long / too-short lists, other item formats, empty, unrelated valid SECS-II; catalogued and uncatalogued S/F) and judged by
+  state only; op `req_then_data` puts data directly behind a Select.req / Deselect.req (same segment, back to back, or the moment the
+  response is on the wire), a reconnect family runs it on the second and third connection under preemptions in the select handlers.
+* **C07** `C07-wait-cra-s1f13-reply-reuses-communicating-handler`, `C07-wait-delay-skips-rearm-while-old-timer-thread-alive` - the
+  application's `on_commack_requested` may answer differently on consecutive calls and the model follows the COMMACK on the wire;
+  op `fast_reply` answers a retry S1F13 the moment it is on the wire, the `fast-retry` template runs that under PRNG schedules (the only
+  C07 histories that leave the run-to-block schedule).
+* **C08** `C08-gem-handler-reattached-on-reenable`, `C08-dispatcher-trigger-cleared-after-drain` - a restart op / family keeps one
+  handler object through two or three sessions; a burst family sends primaries back to back (a W primary in the segment of a silent
+  one, or fired on the first output) under preemptions in the dispatcher, with the oracle looking before any rescuing traffic.
+* **C01** `C01-dynamic-decode-count-precheck-uses-byte-length` - Dynamic items with a count limit (counts elements, not bytes).
+* **C03** `C03-dynamic-set-keeps-held-type-if-it-accepts-value` - a function object that held another conforming value is given the
+  case's value through `set()`.
+* **C04** `C04-whole-frame-segment-bypasses-receive-buffer` - segments that arrive a generated number of scheduling steps after the
+  previous one (mid-processing) and the `whole-frame-race` family.
+* **C11** `C11-collection-event-sender-queue-coalesces-pending-ceids` - op `flips`: several LOCAL/REMOTE switches in a row while the host
+  has not acknowledged the earlier event reports.
+* **C12** `C12-report-variable-resolution-cache-survives-delete-all` - template `redefine-after-use` (a report that was reported once is
+  deleted - delete-all, delete-one, unlink first - and defined again under the same id with other variables).
+* **C13** `C13-sv-encoded-value-memo-compared-by-equality` - template: poll, update to a value that compares equal but differs on the
+  wire (0.0 / -0.0), poll again.
+* **C14** `C14-iteml-decode-depth-guard-counter-leaks-on-failed-decode` - a valid list encoding is decoded right after a series of
+  refused damaged copies of it.
+@@AGENTS2@@
 
 One produced change was discarded instead of kept (`C20-second-link-resets-enabled`: linking a further report to an enabled
 collection event builds a fresh link object, which is disabled until the next S2F37): SEMI E5 itself says that linked event
@@ -80,12 +104,19 @@ reports default to disabled upon linking, C12 deliberately mirrors the implement
 host API re-enables the event in the same call - the statement of C20 does not pin the flag in that window, so a check that
 reported it would over-reach.
 
+In the tenth round `C02-dynamic-decode-reuses-same-type-value-stale-empty-binary` (Dynamic.decode re-uses the item it holds) was
+confirmed when it arrived but stopped breaking anything once the defect it relied on was repaired in /repo (1aabe6e: an empty
+Binary item now replaces the held value): its demonstration passes on the repaired tree, so it is not kept; the class it pointed
+to (a receiver object decoding two items one after the other) stays in C02.
+
 A second one was discarded in the ninth round (`C18-source-check-accepts-ancestor-states`: a transition whose listed source is
 a composite state is accepted while one of its children is current): whether that is "allowed" is exactly the question the
 statement leaves open (C18, correction 1: generated source sets are closed downward so that it never arises), and UML would side
 with the change - a check that reported it would over-reach.
 
-Sibling catches (a change to one property's anchored code seen by another check as well): `C20-report-values-shared-across-reports`
+Sibling catches (a change to one property's anchored code seen by another check as well): `C04-bytequeue-read-offset-survives-clear`
+by C09 and `C11-transition-source-check-before-lock` by C18 (both missed by the check of their own property: the needed alphabet -
+link loss inside a frame, two threads inside a transition - belongs to the sibling); `C20-report-values-shared-across-reports`
 by C12; `C05-source-check-outside-lock` by C18; the reversal of fix d663f2e by C05 and C09.
 """
 
@@ -105,13 +136,14 @@ def main():
         strengthened += bool(v.get("check_strengthened"))
     body = f"""### 8.2 Independently seeded changes (`/verif/seeded/<name>/`)
 
-{len(rows)} changes (eight batches: 12 + 11 + 12 + 8 + 12 + 10 + 10 + 7) were written by fresh sub-agents that saw only the text of one property and a
+{len(rows)} changes (ten batches; the ninth and tenth asked every agent for two changes with different mechanisms) were written by fresh sub-agents that saw only the text of one property and a
 scratch worktree of /repo (nothing from /verif). Each has `patch.diff`, `demo.py` (fails with the change, passes without)
 and `meta.json` (what it needs to manifest, why the suite does not notice, what was run). Every one was confirmed here in a
 scratch worktree of /repo HEAD (`python -m vf.selftest.seeded confirm <name>`: demo exit 0 without / exit 1 with the patch,
 all 2834 repo tests pass with the patch) and then run against the registered quick check
 (`python -m vf.selftest.seeded check <name> quick`; the check is pointed at the patched scratch tree through `VF_REPO`,
-/repo itself is never patched). All {len(rows)} are caught by the quick tier of the check of their property now; {strengthened} were
+/repo itself is never patched). All {len(rows)} are caught by a registered quick tier now - {len(rows) - 2} by the check of their own property, two by
+the check of a sibling property (see 'Sibling catches' below); {strengthened} were
 missed by the version of the check that existed when the change arrived and led to a stronger check (listed below the table).
 The "needs" column is cut to 220 characters; the full text is in `meta.json`. (This section is generated:
 `python -m vf.selftest.mk_design_seeded`.)
